@@ -110,6 +110,7 @@ type simTask struct {
 	termAtInvoke  uint64
 	acceptedIndex uint64 // log index assigned if accepted (0: none)
 	checked       bool
+	ghost         bool // the answering node died inside the transition that produced the reply: the client never saw it
 }
 
 var (
@@ -167,7 +168,7 @@ func (w *world) untrackAll() {
 // pollTasks records the return time of tasks that completed.
 func (w *world) pollTasks() {
 	for _, st := range w.tasks {
-		if st.ret < 0 {
+		if st.ret < 0 && !st.ghost {
 			select {
 			case <-st.t.Done():
 				st.ret = w.clock
